@@ -42,6 +42,10 @@ pub struct CapSet {
     pub url: bool,
     /// bit i = SCHEMES[i]
     pub schemes: u8,
+    /// order in which the server lists things: bit 0 reverses the scheme list, bits 1-2 rotate it,
+    /// bits 3-7 rotate the list of capabilities (Junos advertises `scheme=http,ftp,file`)
+    #[serde(default)]
+    pub order: u8,
 }
 
 impl CapSet {
@@ -69,14 +73,23 @@ impl CapSet {
             }
         }
         if self.url {
-            let s: Vec<&str> = SCHEMES
+            let mut s: Vec<&str> = SCHEMES
                 .iter()
                 .enumerate()
                 .filter(|(i, _)| self.schemes & (1 << i) != 0)
                 .map(|(_, s)| *s)
                 .collect();
+            if self.order & 1 != 0 {
+                s.reverse();
+            }
+            if !s.is_empty() {
+                let k = ((self.order >> 1) & 3) as usize % s.len();
+                s.rotate_left(k);
+            }
             v.push(format!("{CAP_URL}?scheme={}", s.join(",")));
         }
+        let k = (self.order >> 3) as usize % v.len();
+        v.rotate_left(k);
         v
     }
     fn satisfies(&self, r: &Req) -> bool {
@@ -504,6 +517,7 @@ fn case_strategy() -> BoxedStrategy<Case> {
                 base11,
                 url: false,
                 schemes: 0,
+                order: (drop >> 8) as u8,
             };
             for r in &reqs {
                 minimal.add(r);
@@ -543,6 +557,7 @@ fn case_strategy() -> BoxedStrategy<Case> {
                         base11,
                         url: rnd_url,
                         schemes: rnd_sch & 0x1f,
+                        order: (drop >> 8) as u8,
                     },
                     "random".to_string(),
                 ),
